@@ -140,7 +140,9 @@ TAState ==
        \cup {<<"Inv_ReservedOnlyReservedClass", c>> : c \in Bad_ReservedMisuse(T, reserved, RC)}
        \cup {<<"Inv_SharedCapacity", p>> : p \in Bad_SharedCapacity(P, G)}
        \cup {<<"Inv_ReservedCapacity", p>> : p \in Bad_ReservedCapacity(P, G)}
-       \cup {<<"Inv_IsolatedAllOrNone", c>> : c \in Bad_IsolatedAllOrNone(G)}
+       \cup {<<"Inv_IsolatedAllOrNone", c>> : c \in Bad_IsolatedAllOrNone(G) \cup Bad_IsolatedAllOrNoneOf(G, SetOf(pol'.isolated))}
+       \cup {<<"Inv_SharedHasNoIsolated", p>> : p \in Bad_SharedHasIsolated(P, SetOf(pol'.isolated))}
+       \cup {<<"Inv_IsolatedOnlyByGrant", c>> : c \in Bad_ToldIsolated(G, T, SetOf(pol'.isolated)) \cap pinned}
        \cup {<<"Inv_NonEmptyCpuset", c>> : c \in {c \in pinned : ctrs'[c].res.cpus = {}}}
        \cup {<<"Inv_GrantMatchesEligibility", c>> :
                 c \in {c \in DOMAIN G \cap DOMAIN ctrs' :
